@@ -274,6 +274,17 @@ def apply_tamper(sd, t):
         ph2 = phdr_bytes(a2, None if attach else other["vk"])
         s2 = other["sign"](sig_structure(ph2, pl))
         return envelope(ph2, pl, s2), (cose_key(other["vk"]) if attach else None), "transplant:victim-credential-as-script", True
+    if k == "transplant-base":        # the attacker signs (validly, own key) a header claiming a BASE address whose payment
+        # credential is the victim's and whose stake credential is the attacker's own
+        a2 = bytes([sd["net"]]) + h28(sd["vk"]) + h28(other["vk"])
+        ph2 = phdr_bytes(a2, None if attach else other["vk"])
+        s2 = other["sign"](sig_structure(ph2, pl))
+        return envelope(ph2, pl, s2), (cose_key(other["vk"]) if attach else None), "transplant:base-address-victim-payment", True
+    if k == "transplant-kid-and-key": # attached-key form whose protected header ALSO names a key: the victim's kid and address in
+        # the header, the attacker's COSE key attached, signed (validly) by the attacker
+        ph2 = phdr_bytes(sd["address"], sd["vk"])
+        s2 = other["sign"](sig_structure(ph2, pl))
+        return envelope(ph2, pl, s2), cose_key(other["vk"]), "transplant:victim-kid-attacker-key", True
     if k == "forge":                  # no valid signature at all; key of a length on which the primitive raises
         x = bytes.fromhex(t["x"])
         a2 = bytes([(0x60 if sd["k"]["role"] == "payment" else 0xE0) | sd["net"]]) + h28(x)
@@ -475,7 +486,9 @@ def gen_tampers(ctx, rng, kind, attach, payload_len):
            {"t": "key-extended-form", "corr": True},
            {"t": "transplant", "other": other_same, "text": txt, "corr": True},
            {"t": "transplant", "other": other_any, "text": "", "corr": True},
-           {"t": "transplant-role", "other": other_any, "corr": True}]
+           {"t": "transplant-role", "other": other_any, "corr": True},
+           {"t": "transplant-base", "other": other_same, "corr": True}, {"t": "transplant-base", "other": other_any, "corr": True},
+           {"t": "transplant-kid-and-key", "other": other_same, "corr": True}]
     for n in (31, 32, 33, 64):
         ts.append({"t": "forge", "x": bytes(rng.randrange(256) for _ in range(n)).hex(),
                    "sig": rng.choice(["zero", "victim", "short"]), "corr": True})
